@@ -321,7 +321,21 @@ theorem wakeOne_blocked_or_none (q : Quirks) (s : State) (c : Conn) :
   · next w rest _ =>
     simp only []
     split
-    · rw [notify_conns]; exact .inl rfl
+    · split
+      · rw [notify_conns]; exact .inl rfl
+      · exact .inl rfl
+    have h : ∀ (t : State), (t.conns = s.conns) →
+        ((setBlocked t w.conn none).conns c).blocked = (s.conns c).blocked ∨ ((setBlocked t w.conn none).conns c).blocked = none := by
+      intro t ht
+      by_cases hc : c = w.conn
+      · by_cases h0 : w.conn = 0
+        · left; unfold setBlocked; simp [h0, ht]
+        · right; rw [hc]; exact setBlocked_blocked_self _ _ _ h0
+      · left; rw [setBlocked_conns_ne _ _ _ _ hc, ht]
+    split
+    · split
+      · rw [notify_conns]; exact h _ rfl
+      · exact h _ rfl
     split
     · exact .inl rfl
     · split
@@ -357,7 +371,7 @@ theorem InvG_wakeOne {sl : Key → Nat} (q : Quirks) (hq : q.unregisterAllOnServ
     have hpc : (s.conns w.conn).peerClosed = false := hcalm w.conn (by rw [hb]; simp)
     have hWs : ∀ k', cntW s k' = rest.countP (fun w' => w'.key == k') + (if (w.key == k') = true then 1 else 0) := by
       intro k'; unfold cntW; rw [hw, List.countP_cons]
-    simp only [hI.target_ok hw, Bool.true_eq_false, and_false, if_false]
+    simp only [hI.target_ok hw, hpc, Bool.true_eq_false, Bool.false_eq_true, and_false, if_false]
     split
     · next hpe =>
       exfalso
@@ -482,7 +496,9 @@ theorem InvF_iter_wakeOne (q : Quirks) (hq : q.unregisterAllOnServe = true) :
     intro s h hc hl
     simp only [iter]
     refine ih _ (InvF_wakeOne q hq s h hc) (Calm_wakeOne q s hc) ?_
-    rw [wakeOne_wakeQ q s (fun w rest hw => h.target_ok hw), List.length_tail]; omega
+    rw [wakeOne_wakeQ q s (fun w rest hw => h.target_ok hw) (fun w rest hw => by
+      obtain ⟨b, hb, _⟩ := h.wakeOk w (by rw [hw]; simp)
+      exact hc w.conn (by rw [hb]; simp)), List.length_tail]; omega
 
 /-! ## A pop between commands (empty wake queue) -/
 
